@@ -389,6 +389,14 @@ impl FeoxStore {
         }
 
         if let Some(now) = recovery_time {
+            // retire_extents journals at most ALLOCATION_JOURNAL_MAX_ENTRIES extents per
+            // transaction. Stale generations must be durably retired before any expired
+            // winner is, or a crash between two transactions could leave an older
+            // generation behind a winner that is already gone.
+            if !self.read_only {
+                disk.retire_extents(&retired_extents)?;
+                retired_extents.clear();
+            }
             self.remove_expired_recovery_winners(now, format, &mut retired_extents)?;
         }
 
